@@ -79,17 +79,11 @@ def check_C11(ctx, rep):
         if wrapper:
             continue
         same = None
-        try:
-            ta = H.tree_of(fa, a, "op", max_nodes=4000); tb = H.tree_of(fb, b, "op", max_nodes=4000)
-            # the fma provider is abstracted here (it is the subject of R5)
-            ta = vg.map_tree(ta, norm.strip_provider); tb = vg.map_tree(tb, norm.strip_provider)
-            same = ta == tb
+        same, how = same_body(fa, a, fb, b)
+        if how.startswith("op-level"):
             n_tree += 1
-            how = "op-level decision trees identical"
-        except (vg.Unsupported, RecursionError):
-            same = canon_mir(a.mir) == canon_mir(b.mir) and canon_mir(a.promoted) == canon_mir(b.promoted)
+        else:
             n_raw += 1
-            how = "canonicalised MIR identical"
         rep.check(same, "R25", i, "cfg-diff:" + i, "%s differs between default features and --no-default-features" % i, where=H.where(a), detail=how,
                   nontrivial=(a.output in (TF, "f64", "(TwoFloat, TwoFloat)")))
     # closures: compare by parent ident order
@@ -115,6 +109,17 @@ def check_C11(ctx, rep):
 
 # ------------------------------------------------------------------ configuration transfer (every other property)
 
+def unnumbered(tree):
+    """loop snapshots without the numbers of the locals and blocks (a temporary more or less in one configuration shifts them):
+    the values, in order"""
+    if tree[0] == "if":
+        return ("if", tree[1], unnumbered(tree[2]), unnumbered(tree[3]))
+    if tree[0] == "switch":
+        return ("switch", tree[1], tuple((v, unnumbered(t)) for v, t in tree[2]), unnumbered(tree[3]))
+    if tree[0] == "backedge":
+        return ("backedge", tree[1], tuple(v for _, v in tree[3]))
+    return tree
+
 def same_body(fa, a, fb, b):
     """(same?, how) for one body in the two configurations (fma provider abstracted)"""
     try:
@@ -122,7 +127,16 @@ def same_body(fa, a, fb, b):
         ta = vg.map_tree(ta, norm.strip_provider); tb = vg.map_tree(tb, norm.strip_provider)
         return ta == tb, "op-level decision trees identical"
     except (vg.Unsupported, RecursionError):
-        return canon_mir(a.mir) == canon_mir(b.mir) and canon_mir(a.promoted) == canon_mir(b.promoted), "canonicalised MIR identical"
+        if canon_mir(a.mir) == canon_mir(b.mir) and canon_mir(a.promoted) == canon_mir(b.promoted):
+            return True, "canonicalised MIR identical"
+    # a body with a loop whose MIR differs (the panic machinery behind an `assert!` with a message is std's in one configuration and
+    # core's in the other): loop heads havoc'd, one symbolic iteration per loop - the same evaluation of both bodies
+    try:
+        ta = H.tree_of(fa, a, "op", max_nodes=8000, loops="havoc"); tb = H.tree_of(fb, b, "op", max_nodes=8000, loops="havoc")
+        ta = vg.map_tree(ta, norm.strip_provider); tb = vg.map_tree(tb, norm.strip_provider)
+        return unnumbered(ta) == unnumbered(tb), "op-level decision trees (loops havoc'd) identical"
+    except (vg.Unsupported, RecursionError):
+        return False, "canonicalised MIR differs"
 
 MUL_DEPENDENT = {"C02", "C04", "C05", "C10", "C13", "C14", "C15", "C16", "C17", "C18", "C19"}   # rules that treat `*` as the conforming product
 
